@@ -229,7 +229,7 @@ func (c *checkCtx) check() int {
 			fmt.Fprintln(os.Stderr, "gcsim: build trouble:", err)
 			return 2
 		}
-		n := 68
+		n := 76
 		if c.Tier == "thorough" {
 			n = 1200
 		}
